@@ -51,10 +51,13 @@ OpSearch(list, i, fs, name) ==
           ELSE IF IsRegular(fs, Join(list[i], name)) THEN Join(list[i], name) ELSE NotFound
 ResolveOp(list, fs, name) == OpSearch(list, 1, fs, name)
 
-(* what cfg_parse / include open: through the search path if there is one, else after tilde expansion *)
-OpenTarget(sp, fs, name, pw, euidHome) ==
+(* what cfg_parse / include open: through the search path if there is one (the working        *)
+(* directory is then not consulted), else after tilde expansion, relative to the working     *)
+(* directory cwd                                                                             *)
+OpenTarget(sp, fs, name, pw, euidHome, cwd) ==
   IF sp # <<>> THEN ResolveRef(sp, fs, name)
   ELSE LET t == TildeRef(name, pw, euidHome)
-       IN IF IsRegular(fs, t) THEN t ELSE NotFound
+           full == IF IsAbs(t) \/ t = "" THEN t ELSE Join(cwd, t)
+       IN IF IsRegular(fs, full) THEN full ELSE NotFound
 
 =============================================================================
